@@ -72,4 +72,186 @@ def expectedFacts : List (String × String) :=
      ("xmlSpace.ascend", "theElement = theElement->getParentNode();"),
      ("xmlSpace.default", "return false;")]
 
+/-! ### where string values are computed
+
+Every observation of a string value must go through the strip-aware overloads of `DOMServices::getNodeData`
+(those taking the execution context): this is what `Node.textOf / XNode.strVal sp` model, for `string()`, `key()`
+with a node-set argument (one lookup per member's string value), `id()`, `normalize-space()`, `string-length()`,
+`sum()`, `xsl:value-of`, sort keys and the `use` values of key tables alike.  The two lists below are the reviewed
+state of the source: **outside DOMServices every site hands on the context ("ctx")**, except the ten listed
+"noctx" sites, which are the context-free `str()` API of `XObject`/`XNodeSetBase` (no execution context exists
+there), the trace listener's fallback, and `XResultTreeFrag` (result tree fragments are not source trees); **inside
+the funnel every recursive call hands the context on**, except the attribute / comment / PI leaves and the
+fast-path wrappers that first test `hasPreserveOrStripSpaceConditions()`. -/
+
+def expectedValueSitesOutside : List (String × String × String × String) := [
+  ("XPath/FunctionID.cpp", "FunctionID::FunctionIDXObjectTypeCallback::NodeSet( const XObject& /* theXObject */, const NodeRefListBase& theValue)",
+   "getNodeData(*theValue.item(i), m_executionContext, m_resultString)", "ctx"),
+  ("XPath/FunctionNormalizeSpace.cpp", "FunctionNormalizeSpace::execute( XPathExecutionContext& executionContext, XalanNode* context, const Locator* locator)",
+   "getNodeData(*context, executionContext, theString)", "ctx"),
+  ("XPath/FunctionString.cpp", "FunctionString::execute( XPathExecutionContext& executionContext, XalanNode* context, const Locator* locator)",
+   "getNodeData(*context, executionContext, theString)", "ctx"),
+  ("XPath/XNodeSetBase.cpp", "XNodeSetBase::XNodeSetBase( const XNodeSetBase& source, MemoryManager& theMemoryManager)",
+   "getNodeData( *theNode, executionContext, m_cachedStringValue)", "ctx"),
+  ("XPath/XNodeSetBase.cpp", "XNodeSetBase::XNodeSetBase( const XNodeSetBase& source, MemoryManager& theMemoryManager)",
+   "getNodeData( *theNode, m_cachedStringValue)", "noctx"),
+  ("XPath/XNodeSetBase.cpp", "XNodeSetBase::str( FormatterListener& formatterListener, MemberFunctionPtr function)",
+   "getNodeData( *theNode, formatterListener, function)", "noctx"),
+  ("XPath/XNodeSetBase.cpp", "XNodeSetBase::str( XPathExecutionContext& executionContext, FormatterListener& formatterListener, MemberFunctionPtr function)",
+   "getNodeData( *theNode, executionContext, formatterListener, function)", "ctx"),
+  ("XPath/XNodeSetBase.cpp", "XNodeSetBase::str( XPathExecutionContext& executionContext, XalanDOMString& theBuffer)",
+   "getNodeData( *theNode, executionContext, theBuffer)", "ctx"),
+  ("XPath/XNodeSetBase.cpp", "XNodeSetBase::str( XPathExecutionContext& executionContext, XalanDOMString& theBuffer)",
+   "getNodeData( *theNode, executionContext, theCounter, &FormatterListener::characters)", "ctx"),
+  ("XPath/XNodeSetBase.cpp", "XNodeSetBase::str( XPathExecutionContext& executionContext, XalanDOMString& theBuffer)",
+   "getNodeData( *theNode, theBuffer)", "noctx"),
+  ("XPath/XObject.cpp", "getStringFromNode( const XalanNode& theNode, XPathExecutionContext& theContext, XalanDOMString& theString)",
+   "getNodeData(theNode, theContext, theString)", "ctx"),
+  ("XPath/XObject.hpp", "string( const NodeRefListBase& theNodeList, FormatterListener& formatterListener, MemberFunctionPtr function)",
+   "getNodeData(*theNodeList.item(0), formatterListener, function)", "noctx"),
+  ("XPath/XObject.hpp", "string( const NodeRefListBase& theNodeList, XPathExecutionContext& theExecutionContext, FormatterListener& formatterListener, MemberFunctionPtr function)",
+   "getNodeData( *theNodeList.item(0), theExecutionContext, formatterListener, function)", "ctx"),
+  ("XPath/XObject.hpp", "string( const XalanNode& theNode, FormatterListener& formatterListener, MemberFunctionPtr function)",
+   "getNodeData(theNode, formatterListener, function)", "noctx"),
+  ("XPath/XObject.hpp", "string( const XalanNode& theNode, XPathExecutionContext& theExecutionContext, FormatterListener& formatterListener, MemberFunctionPtr function)",
+   "getNodeData( theNode, theExecutionContext, formatterListener, function)", "ctx"),
+  ("XPath/XObject.hpp", "string( const XalanNode& theNode, XPathExecutionContext& theExecutionContext, XalanDOMString& theString)",
+   "getNodeData(theNode, theExecutionContext, theString)", "ctx"),
+  ("XPath/XObject.hpp", "string( const XalanNode& theNode, XalanDOMString& theString)",
+   "getNodeData(theNode, theString)", "noctx"),
+  ("XPath/XPath.cpp", "XPath::functionStringLength( XalanNode* context, XPathExecutionContext& executionContext)",
+   "getNodeData(*context, executionContext, theCounter, &FormatterListener::characters)", "ctx"),
+  ("XPath/XPath.cpp", "XPath::functionSum( XalanNode* context, OpCodeMapPositionType opPos, XPathExecutionContext& executionContext)",
+   "getNodeData(*theNodeList->item(i), executionContext, theString)", "ctx"),
+  ("XSLT/ElemValueOf.cpp", "cdata( const XMLCh* const /* ch */, const size_type /* length */)",
+   "getNodeData(*sourceNode, executionContext, theString.get())", "ctx"),
+  ("XSLT/ElemValueOf.cpp", "cdata( const XMLCh* const /* ch */, const size_type /* length */)",
+   "getNodeData(*sourceNode, executionContext, theString.get())", "ctx"),
+  ("XSLT/FunctionDocument.cpp", "FunctionDocument::doExecute( XPathExecutionContext& executionContext, XalanNode* context, const XObjectPtr& arg, XalanDOMString* base, int argCount, const Locator* locator, bool fNoRelativeURI)",
+   "getNodeData(*resolver, executionContext, ref)", "ctx"),
+  ("XSLT/FunctionKey.cpp", "FunctionKey::execute( XPathExecutionContext& executionContext, XalanNode* context, const XObjectPtr arg1, const XObjectPtr arg2, const Locator* locator)",
+   "getNodeData(*theNodeSet.item(i), executionContext, ref)", "ctx"),
+  ("XSLT/KeyTable.cpp", "KeyTable::processKeyDeclaration( KeysMapType& theKeys, const KeyDeclaration& kd, XalanNode* testNode, const PrefixResolver& resolver, StylesheetExecutionContext& executionContext)",
+   "getNodeData(*nl.item(i), executionContext, nodeData)", "ctx"),
+  ("XSLT/NodeSorter.cpp", "getResult( const XPath* theXPath, XalanNode* theNode, const PrefixResolver& thePrefixResolver, XPathExecutionContext& theExecutionContext)",
+   "getNodeData(*theNode, theExecutionContext, temp.get())", "ctx"),
+  ("XSLT/NodeSorter.cpp", "getResult( const XPath* theXPath, XalanNode* theNode, const PrefixResolver& thePrefixResolver, XPathExecutionContext& theExecutionContext, XalanDOMString& theResult)",
+   "getNodeData( *theNode, theExecutionContext, theResult)", "ctx"),
+  ("XSLT/TraceListenerDefault.cpp", "TraceListenerDefault::processNodeList(const NodeRefListBase& nl)",
+   "getNodeData(*nl.item(i), *m_executionContext, msg)", "ctx"),
+  ("XSLT/TraceListenerDefault.cpp", "TraceListenerDefault::processNodeList(const NodeRefListBase& nl)",
+   "getNodeData(*nl.item(i), msg)", "noctx"),
+  ("XSLT/XResultTreeFrag.cpp", "XResultTreeFrag::XResultTreeFrag( const XResultTreeFrag& source, MemoryManager& theManager)",
+   "getNodeData( *m_value, m_cachedStringValue)", "noctx"),
+  ("XSLT/XResultTreeFrag.cpp", "XResultTreeFrag::str( FormatterListener& formatterListener, MemberFunctionPtr function)",
+   "getNodeData( *m_value, formatterListener, function)", "noctx"),
+  ("XSLT/XResultTreeFrag.cpp", "XResultTreeFrag::str( XPathExecutionContext& /* executionContext */, XalanDOMString& theBuffer)",
+   "getNodeData( *m_value, executionContext, theCounter, &FormatterListener::characters)", "ctx"),
+  ("XSLT/XResultTreeFrag.cpp", "XResultTreeFrag::str( XPathExecutionContext& /* executionContext */, XalanDOMString& theBuffer)",
+   "getNodeData( *m_value, theBuffer)", "noctx"),
+  ("XSLT/XSLTEngineImpl.cpp", "XSLTEngineImpl::characters(const XalanNode& node)",
+   "getNodeData( node, *m_executionContext, *getFormatterListenerImpl(), &FormatterListener::cdata)", "ctx"),
+  ("XSLT/XSLTEngineImpl.cpp", "XSLTEngineImpl::characters(const XalanNode& node)",
+   "getNodeData( node, *m_executionContext, *getFormatterListenerImpl(), &FormatterListener::characters)", "ctx"),
+  ("XSLT/XSLTEngineImpl.cpp", "XSLTEngineImpl::charactersRaw(const XalanNode& node)",
+   "getNodeData( node, *m_executionContext, *getFormatterListenerImpl(), &FormatterListener::charactersRaw)", "ctx"),
+  ("XSLT/XSLTEngineImpl.cpp", "XSLTEngineImpl::fireCharacterGenerateEvent( const XalanNode& theNode, bool isCDATA)",
+   "getNodeData(theNode, *m_executionContext, theBuffer)", "ctx")
+]
+
+def expectedValueSitesFunnel : List (String × String × String × String) := [
+  ("DOMSupport/DOMServices.cpp", "DOMServices::doGetNodeData( const XalanDocument& document, ExecutionContext& executionContext, FormatterListener& formatterListener, MemberFunctionPtr function)",
+   "getChildrenData( document.getDocumentElement(), executionContext, formatterListener, function)", "ctx"),
+  ("DOMSupport/DOMServices.cpp", "DOMServices::doGetNodeData( const XalanDocument& document, ExecutionContext& executionContext, XalanDOMString& data)",
+   "getChildrenData( document.getDocumentElement(), executionContext, data)", "ctx"),
+  ("DOMSupport/DOMServices.cpp", "DOMServices::doGetNodeData( const XalanDocumentFragment& documentFragment, ExecutionContext& executionContext, FormatterListener& formatterListener, MemberFunctionPtr function)",
+   "getChildData(child, executionContext, formatterListener, function)", "ctx"),
+  ("DOMSupport/DOMServices.cpp", "DOMServices::doGetNodeData( const XalanDocumentFragment& documentFragment, ExecutionContext& executionContext, XalanDOMString& data)",
+   "getChildData(child, executionContext, data)", "ctx"),
+  ("DOMSupport/DOMServices.cpp", "DOMServices::doGetNodeData( const XalanElement& element, ExecutionContext& executionContext, FormatterListener& formatterListener, MemberFunctionPtr function)",
+   "getChildrenData( element.getFirstChild(), executionContext, formatterListener, function)", "ctx"),
+  ("DOMSupport/DOMServices.cpp", "DOMServices::doGetNodeData( const XalanElement& element, ExecutionContext& executionContext, XalanDOMString& data)",
+   "getChildrenData(element.getFirstChild(), executionContext, data)", "ctx"),
+  ("DOMSupport/DOMServices.cpp", "DOMServices::doGetNodeData( const XalanNode& node, ExecutionContext& executionContext, FormatterListener& formatterListener, MemberFunctionPtr function)",
+   "doGetNodeData(theDocument, executionContext, formatterListener, function)", "ctx"),
+  ("DOMSupport/DOMServices.cpp", "DOMServices::doGetNodeData( const XalanNode& node, ExecutionContext& executionContext, FormatterListener& formatterListener, MemberFunctionPtr function)",
+   "doGetNodeData(theDocumentFragment, executionContext, formatterListener, function)", "ctx"),
+  ("DOMSupport/DOMServices.cpp", "DOMServices::doGetNodeData( const XalanNode& node, ExecutionContext& executionContext, FormatterListener& formatterListener, MemberFunctionPtr function)",
+   "doGetNodeData(theElement, executionContext, formatterListener, function)", "ctx"),
+  ("DOMSupport/DOMServices.cpp", "DOMServices::doGetNodeData( const XalanNode& node, ExecutionContext& executionContext, FormatterListener& formatterListener, MemberFunctionPtr function)",
+   "doGetNodeData(theTextNode, executionContext, formatterListener, function)", "ctx"),
+  ("DOMSupport/DOMServices.cpp", "DOMServices::doGetNodeData( const XalanNode& node, ExecutionContext& executionContext, FormatterListener& formatterListener, MemberFunctionPtr function)",
+   "getNodeData(theAttr, formatterListener, function)", "noctx"),
+  ("DOMSupport/DOMServices.cpp", "DOMServices::doGetNodeData( const XalanNode& node, ExecutionContext& executionContext, FormatterListener& formatterListener, MemberFunctionPtr function)",
+   "getNodeData(theComment, formatterListener, function)", "noctx"),
+  ("DOMSupport/DOMServices.cpp", "DOMServices::doGetNodeData( const XalanNode& node, ExecutionContext& executionContext, FormatterListener& formatterListener, MemberFunctionPtr function)",
+   "getNodeData(thePI, formatterListener, function)", "noctx"),
+  ("DOMSupport/DOMServices.cpp", "DOMServices::doGetNodeData( const XalanNode& node, ExecutionContext& executionContext, XalanDOMString& data)",
+   "doGetNodeData(theDocument, executionContext, data)", "ctx"),
+  ("DOMSupport/DOMServices.cpp", "DOMServices::doGetNodeData( const XalanNode& node, ExecutionContext& executionContext, XalanDOMString& data)",
+   "doGetNodeData(theDocumentFragment, executionContext, data)", "ctx"),
+  ("DOMSupport/DOMServices.cpp", "DOMServices::doGetNodeData( const XalanNode& node, ExecutionContext& executionContext, XalanDOMString& data)",
+   "doGetNodeData(theElement, executionContext, data)", "ctx"),
+  ("DOMSupport/DOMServices.cpp", "DOMServices::doGetNodeData( const XalanNode& node, ExecutionContext& executionContext, XalanDOMString& data)",
+   "doGetNodeData(theTextNode, executionContext, data)", "ctx"),
+  ("DOMSupport/DOMServices.cpp", "DOMServices::doGetNodeData( const XalanNode& node, ExecutionContext& executionContext, XalanDOMString& data)",
+   "getNodeData(theAttr, data)", "noctx"),
+  ("DOMSupport/DOMServices.cpp", "DOMServices::doGetNodeData( const XalanNode& node, ExecutionContext& executionContext, XalanDOMString& data)",
+   "getNodeData(theComment, data)", "noctx"),
+  ("DOMSupport/DOMServices.cpp", "DOMServices::doGetNodeData( const XalanNode& node, ExecutionContext& executionContext, XalanDOMString& data)",
+   "getNodeData(thePI, data)", "noctx"),
+  ("DOMSupport/DOMServices.cpp", "getChildData( const XalanNode* child, ExecutionContext& executionContext, FormatterListener& formatterListener, DOMServices::MemberFunctionPtr function)",
+   "getNodeData(*theElementNode, executionContext, formatterListener, function)", "ctx"),
+  ("DOMSupport/DOMServices.cpp", "getChildData( const XalanNode* child, ExecutionContext& executionContext, FormatterListener& formatterListener, DOMServices::MemberFunctionPtr function)",
+   "getNodeData(*theTextNode, executionContext, formatterListener, function)", "ctx"),
+  ("DOMSupport/DOMServices.cpp", "getChildData( const XalanNode* child, ExecutionContext& executionContext, XalanDOMString& data)",
+   "doGetNodeData(*theElementNode, executionContext, data)", "ctx"),
+  ("DOMSupport/DOMServices.cpp", "getChildData( const XalanNode* child, ExecutionContext& executionContext, XalanDOMString& data)",
+   "doGetNodeData(*theTextNode, executionContext, data)", "ctx"),
+  ("DOMSupport/DOMServices.cpp", "getChildrenData( const XalanNode* firstChild, ExecutionContext& executionContext, FormatterListener& formatterListener, DOMServices::MemberFunctionPtr function)",
+   "getChildData(firstChild, executionContext, formatterListener, function)", "ctx"),
+  ("DOMSupport/DOMServices.cpp", "getChildrenData( const XalanNode* firstChild, ExecutionContext& executionContext, XalanDOMString& data)",
+   "getChildData(firstChild, executionContext, data)", "ctx"),
+  ("DOMSupport/DOMServices.hpp", "getNodeData( const XalanDocument& document, ExecutionContext& context, FormatterListener& formatterListener, MemberFunctionPtr function)",
+   "else : doGetNodeData(document, context, formatterListener, function)", "ctx"),
+  ("DOMSupport/DOMServices.hpp", "getNodeData( const XalanDocument& document, ExecutionContext& context, FormatterListener& formatterListener, MemberFunctionPtr function)",
+   "if (!context.hasPreserveOrStripSpaceConditions()) : getNodeData(document, formatterListener, function)", "noctx"),
+  ("DOMSupport/DOMServices.hpp", "getNodeData( const XalanDocument& document, ExecutionContext& context, XalanDOMString& data)",
+   "else : doGetNodeData(document, context, data)", "ctx"),
+  ("DOMSupport/DOMServices.hpp", "getNodeData( const XalanDocument& document, ExecutionContext& context, XalanDOMString& data)",
+   "if (!context.hasPreserveOrStripSpaceConditions()) : getNodeData(document, data)", "noctx"),
+  ("DOMSupport/DOMServices.hpp", "getNodeData( const XalanDocumentFragment& documentFragment, ExecutionContext& context, FormatterListener& formatterListener, MemberFunctionPtr function)",
+   "else : doGetNodeData(documentFragment, context, formatterListener, function)", "ctx"),
+  ("DOMSupport/DOMServices.hpp", "getNodeData( const XalanDocumentFragment& documentFragment, ExecutionContext& context, FormatterListener& formatterListener, MemberFunctionPtr function)",
+   "if (!context.hasPreserveOrStripSpaceConditions()) : getNodeData(documentFragment, formatterListener, function)", "noctx"),
+  ("DOMSupport/DOMServices.hpp", "getNodeData( const XalanDocumentFragment& documentFragment, ExecutionContext& context, XalanDOMString& data)",
+   "else : doGetNodeData(documentFragment, context, data)", "ctx"),
+  ("DOMSupport/DOMServices.hpp", "getNodeData( const XalanDocumentFragment& documentFragment, ExecutionContext& context, XalanDOMString& data)",
+   "if (!context.hasPreserveOrStripSpaceConditions()) : getNodeData(documentFragment, data)", "noctx"),
+  ("DOMSupport/DOMServices.hpp", "getNodeData( const XalanElement& element, ExecutionContext& context, FormatterListener& formatterListener, MemberFunctionPtr function)",
+   "else : doGetNodeData(element, context, formatterListener, function)", "ctx"),
+  ("DOMSupport/DOMServices.hpp", "getNodeData( const XalanElement& element, ExecutionContext& context, FormatterListener& formatterListener, MemberFunctionPtr function)",
+   "if (!context.hasPreserveOrStripSpaceConditions()) : getNodeData(element, formatterListener, function)", "noctx"),
+  ("DOMSupport/DOMServices.hpp", "getNodeData( const XalanElement& element, ExecutionContext& context, XalanDOMString& data)",
+   "else : doGetNodeData(element, context, data)", "ctx"),
+  ("DOMSupport/DOMServices.hpp", "getNodeData( const XalanElement& element, ExecutionContext& context, XalanDOMString& data)",
+   "if (!context.hasPreserveOrStripSpaceConditions()) : getNodeData(element, data)", "noctx"),
+  ("DOMSupport/DOMServices.hpp", "getNodeData( const XalanNode& node, ExecutionContext& context, FormatterListener& formatterListener, MemberFunctionPtr function)",
+   "else : doGetNodeData(node, context, formatterListener, function)", "ctx"),
+  ("DOMSupport/DOMServices.hpp", "getNodeData( const XalanNode& node, ExecutionContext& context, FormatterListener& formatterListener, MemberFunctionPtr function)",
+   "if (!context.hasPreserveOrStripSpaceConditions()) : getNodeData(node, formatterListener, function)", "noctx"),
+  ("DOMSupport/DOMServices.hpp", "getNodeData( const XalanNode& node, ExecutionContext& context, XalanDOMString& data)",
+   "else : doGetNodeData(node, context, data)", "ctx"),
+  ("DOMSupport/DOMServices.hpp", "getNodeData( const XalanNode& node, ExecutionContext& context, XalanDOMString& data)",
+   "if (!context.hasPreserveOrStripSpaceConditions()) : getNodeData(node, data)", "noctx"),
+  ("DOMSupport/DOMServices.hpp", "getNodeData( const XalanText& text, ExecutionContext& context, FormatterListener& formatterListener, MemberFunctionPtr function)",
+   "else : doGetNodeData(text, context, formatterListener, function)", "ctx"),
+  ("DOMSupport/DOMServices.hpp", "getNodeData( const XalanText& text, ExecutionContext& context, FormatterListener& formatterListener, MemberFunctionPtr function)",
+   "if (!context.hasPreserveOrStripSpaceConditions()) : getNodeData(text, formatterListener, function)", "noctx"),
+  ("DOMSupport/DOMServices.hpp", "getNodeData( const XalanText& text, ExecutionContext& context, XalanDOMString& data)",
+   "else : doGetNodeData(text, context, data)", "ctx"),
+  ("DOMSupport/DOMServices.hpp", "getNodeData( const XalanText& text, ExecutionContext& context, XalanDOMString& data)",
+   "if (!context.hasPreserveOrStripSpaceConditions()) : getNodeData(text, data)", "noctx")
+]
+
 end XalanModel.C13
